@@ -126,3 +126,229 @@ theorem processRequest_cases (apiPath : Bytes) (cfg : Option Bytes) (env : Env) 
       | true => right; exact ⟨trivial, ⟨action, rfl, hq⟩, by simp⟩
 
 end Rotonda.MrtApi
+
+namespace Rotonda.MrtApi
+
+/-! ### File-system level: what `realpath` returns is a link-free existing path -/
+
+/-- A well-formed file name: non-empty, no separator, not `.` or `..`. -/
+def WFName (n : Bytes) : Prop := n ≠ [] ∧ 47 ∉ n ∧ n ≠ [46] ∧ n ≠ [46, 46]
+
+/-- Every prefix of `p` (including `p`) is a directory of `fs` — in particular none is a link. -/
+def ResolvedDir (fs : Fs) (p : List Bytes) : Prop := ∀ q, q <+: p → fs.get q = some .dir
+
+/-- `p` is a *resolved location* of `fs`: a directory all of whose prefixes are directories, or
+    a file directly inside such a directory. No component is a symbolic link. -/
+def Resolved (fs : Fs) (p : List Bytes) : Prop :=
+  ResolvedDir fs p ∨ ∃ d c, p = d ++ [c] ∧ ResolvedDir fs d ∧ fs.get p = some .file
+
+theorem resolvedDir_nil (fs : Fs) : ResolvedDir fs [] := by
+  intro q hq
+  have : q = [] := List.prefix_nil.mp hq
+  subst this
+  simp [Fs.get]
+
+theorem resolvedDir_dropLast {fs : Fs} {p : List Bytes} (h : ResolvedDir fs p) :
+    ResolvedDir fs p.dropLast :=
+  fun q hq => h q (hq.trans (List.dropLast_prefix p))
+
+theorem resolvedDir_concat {fs : Fs} {p : List Bytes} {c : Bytes} (h : ResolvedDir fs p)
+    (hc : fs.get (p ++ [c]) = some .dir) : ResolvedDir fs (p ++ [c]) := by
+  intro q hq
+  rcases List.prefix_concat_iff.mp hq with h1 | h1
+  · rw [h1]; exact hc
+  · exact h q h1
+
+theorem of_mem_takeWhile {α : Type} (f : α → Bool) (x : α) :
+    ∀ l : List α, x ∈ l.takeWhile f → f x = true
+  | [], h => by simp at h
+  | a :: l, h => by
+    rw [List.takeWhile_cons] at h
+    by_cases ha : f a = true
+    · simp only [ha, if_true, List.mem_cons] at h
+      rcases h with h | h
+      · exact h ▸ ha
+      · exact of_mem_takeWhile f x l h
+    · simp [ha] at h
+
+theorem nextComp_no_sep (s : Bytes) : 47 ∉ (nextComp s).1 := by
+  unfold nextComp
+  simp only
+  intro h
+  have := of_mem_takeWhile _ _ _ h
+  simp at this
+
+theorem realpathAux_ok (fs : Fs) : ∀ (fuel links : Nat) (dest : List Bytes) (name : Bytes)
+    (p : List Bytes), ResolvedDir fs dest → (∀ n ∈ dest, WFName n) →
+    realpathAux fs fuel links dest name = .ok p → Resolved fs p ∧ ∀ n ∈ p, WFName n := by
+  intro fuel
+  induction fuel with
+  | zero => intro links dest name p _ _ h; simp [realpathAux] at h
+  | succ fuel ih =>
+    intro links dest name p hd hw h
+    have hns := nextComp_no_sep name
+    unfold realpathAux at h
+    generalize nextComp name = cr at h hns
+    obtain ⟨c, rest⟩ := cr
+    simp only at h hns
+    by_cases h1 : c.isEmpty = true
+    · simp only [h1, if_true] at h
+      cases h
+      exact ⟨Or.inl hd, hw⟩
+    · simp only [h1, Bool.false_eq_true, if_false] at h
+      by_cases h2 : c = [46]
+      · simp only [h2, if_true] at h
+        exact ih links dest rest p hd hw h
+      · simp only [h2, if_false] at h
+        by_cases h3 : c = [46, 46]
+        · simp only [h3, if_true] at h
+          by_cases h4 : dest = [rootName]
+          · simp [h4] at h
+          · simp only [h4, if_false] at h
+            exact ih links dest.dropLast rest p (resolvedDir_dropLast hd)
+              (fun n hn => hw n (List.dropLast_subset dest hn)) h
+        · simp only [h3, if_false] at h
+          have hcw : WFName c := ⟨by simpa using h1, hns, h2, h3⟩
+          by_cases h5 : (dest.isEmpty && c != rootName) = true
+          · simp [h5] at h
+          · simp only [h5, Bool.false_eq_true, if_false] at h
+            cases hg : fs.get (dest ++ [c]) with
+            | none => simp [hg] at h
+            | some node =>
+              simp only [hg] at h
+              cases node with
+              | dir =>
+                simp only at h
+                refine ih links (dest ++ [c]) rest p (resolvedDir_concat hd hg) ?_ h
+                intro n hn
+                rcases List.mem_append.mp hn with hn | hn
+                · exact hw n hn
+                · simp at hn; subst hn; exact hcw
+              | file =>
+                simp only at h
+                by_cases h6 : rest.isEmpty = true
+                · simp only [h6, if_true] at h
+                  cases h
+                  refine ⟨Or.inr ⟨dest, c, rfl, hd, hg⟩, ?_⟩
+                  intro n hn
+                  rcases List.mem_append.mp hn with hn | hn
+                  · exact hw n hn
+                  · simp at hn; subst hn; exact hcw
+                · simp [h6] at h
+              | link t =>
+                simp only at h
+                by_cases h7 : links + 1 > maxLinks
+                · simp [h7] at h
+                · simp only [h7, if_false] at h
+                  by_cases h8 : hasRoot t = true
+                  · simp only [h8, if_true] at h
+                    exact ih (links + 1) [] (t ++ rest) p (resolvedDir_nil fs) (by simp) h
+                  · simp only [h8, Bool.false_eq_true, if_false] at h
+                    exact ih (links + 1) dest (t ++ rest) p hd hw h
+
+/-- What `canonFs` returns is a resolved location with well-formed names. -/
+theorem canonFs_ok {fs : Fs} {s : Bytes} {p : List Bytes} (h : canonFs fs s = .ok p) :
+    Resolved fs p ∧ ∀ n ∈ p, WFName n := by
+  unfold canonFs at h
+  split at h
+  · cases h
+  · split at h
+    · cases h
+    · split at h
+      · cases h
+      · exact realpathAux_ok fs _ 0 [] s p (resolvedDir_nil fs) (by simp) h
+
+/-! ### `Path::components` of a rendered path -/
+
+theorem splitOn_ne_nil (c : Nat) (s : Bytes) : splitOn c s ≠ [] := by
+  induction s with
+  | nil => simp [splitOn]
+  | cons a s ih =>
+    unfold splitOn
+    cases h : splitOn c s with
+    | nil => simp
+    | cons p ps => by_cases hac : (a == c) = true <;> simp [hac]
+
+theorem splitOn_sep (c : Nat) (r : Bytes) : splitOn c (c :: r) = [] :: splitOn c r := by
+  conv => lhs; unfold splitOn
+  cases h : splitOn c r with
+  | nil => exact absurd h (splitOn_ne_nil c r)
+  | cons p ps => simp
+
+theorem splitOn_append_sep (c : Nat) (n r : Bytes) (hn : c ∉ n) :
+    splitOn c (n ++ c :: r) = n :: splitOn c r := by
+  induction n with
+  | nil => simpa using splitOn_sep c r
+  | cons a n ih =>
+    have ha : a ≠ c := fun h => hn (by simp [h])
+    have hn' : c ∉ n := fun h => hn (by simp [h])
+    have := ih hn'
+    show splitOn c (a :: (n ++ c :: r)) = _
+    conv => lhs; unfold splitOn
+    simp only [this]
+    simp [ha]
+
+theorem splitOn_no_sep (c : Nat) (n : Bytes) (hn : c ∉ n) : splitOn c n = [n] := by
+  induction n with
+  | nil => simp [splitOn]
+  | cons a n ih =>
+    have ha : a ≠ c := fun h => hn (by simp [h])
+    have hn' : c ∉ n := fun h => hn (by simp [h])
+    conv => lhs; unfold splitOn
+    simp only [ih hn']
+    simp [ha]
+
+theorem splitOn_flat (n : Bytes) (ns : List Bytes) (hn : 47 ∉ n) (hns : ∀ m ∈ ns, 47 ∉ m) :
+    splitOn 47 (n ++ ns.flatMap (47 :: ·)) = n :: ns := by
+  induction ns generalizing n with
+  | nil => simpa using splitOn_no_sep 47 n hn
+  | cons m ms ih =>
+    simp only [List.flatMap_cons, List.cons_append]
+    rw [splitOn_append_sep 47 n _ hn, ih m (hns m (by simp)) (fun x hx => hns x (by simp [hx]))]
+
+theorem pieceComp_wf {n : Bytes} (h : WFName n) : pieceComp n = some (.normal n) := by
+  obtain ⟨h1, _, h3, h4⟩ := h
+  unfold pieceComp
+  have : n.isEmpty = false := by cases n <;> simp_all
+  simp [this, h3, h4]
+
+theorem filterMap_pieceComp_wf (ns : List Bytes) (h : ∀ n ∈ ns, WFName n) :
+    ns.filterMap pieceComp = ns.map .normal := by
+  induction ns with
+  | nil => rfl
+  | cons n ns ih =>
+    rw [List.filterMap_cons, pieceComp_wf (h n (by simp))]
+    simp [ih (fun x hx => h x (by simp [hx]))]
+
+/-- `Path::components()` of a rendered resolved path are exactly its names. -/
+theorem parsePath_render (p : List Bytes) (h : ∀ n ∈ p, WFName n) :
+    parsePath (render p) = ⟨true, p.map .normal⟩ := by
+  cases p with
+  | nil => decide
+  | cons n ns =>
+    have hr : render (n :: ns) = 47 :: (n ++ ns.flatMap (47 :: ·)) := by simp [render]
+    have hs : splitOn 47 (render (n :: ns)) = [] :: n :: ns := by
+      rw [hr, splitOn_sep, splitOn_flat n ns (h n (by simp)).2.1 (fun m hm => (h m (by simp [hm])).2.1)]
+    unfold parsePath
+    rw [hs]
+    have hroot : hasRoot (render (n :: ns)) = true := by rw [hr]; rfl
+    simp only [hroot, if_true]
+    have : pieceComp [] = none := by decide
+    rw [List.filterMap_cons, this]
+    simp only
+    rw [filterMap_pieceComp_wf (n :: ns) h]
+
+theorem prefix_of_map_normal {a b : List Bytes} (h : a.map Comp.normal <+: b.map Comp.normal) :
+    a <+: b := by
+  induction a generalizing b with
+  | nil => exact List.nil_prefix
+  | cons x xs ih =>
+    cases b with
+    | nil => simp at h
+    | cons y ys =>
+      simp only [List.map_cons, List.cons_prefix_cons] at h
+      obtain ⟨h1, h2⟩ := h
+      cases h1
+      exact List.cons_prefix_cons.mpr ⟨rfl, ih h2⟩
+
+end Rotonda.MrtApi
